@@ -1192,6 +1192,10 @@ class ServiceInstance:
             # delayed answer to a FindService that was scheduled before stop():
             # nothing may follow the StopOffer
             return
+        if not stop and remote is not None and not self._can_answer_offers:
+            # ... and if the instance was restarted meanwhile it must not answer
+            # during its new Initial Wait Phase (4.2.1 SWS_SD_00319)
+            return
         entry = self.service.create_offer_entry(
             self.timings.ANNOUNCE_TTL if not stop else 0
         )
